@@ -137,6 +137,7 @@ func orch(pkg, name string, d int, desc string, reach ...string) *harnessSpec {
 // harnesses whose tree at one more delay was not exhausted within seven minutes on 16 cores
 var shallowInThorough = map[string]bool{
 	"VerifC06RuntimeFaultExt": true, "VerifC06ExtensionFault": true, "VerifC06ExtensionFault2": true,
+	"VerifC14Oversize": true, // with one delay the multi-megabyte length queries came back unknown
 }
 
 func withD(hs []*harnessSpec, d int, maxPaths int) []*harnessSpec {
